@@ -4,12 +4,12 @@ CONSTANTS
   CCl = {"c1"}
   SCl = {"s1"}
   Stateless = FALSE
-  Timeout = TRUE
+  Timeout = FALSE
   Sse = TRUE
   Nested = FALSE
-  Faults = {"cut", "net"}
-  DelModes = {"hang", "hold"}
-  Helds = TRUE
+  Faults = {}
+  DelModes = {}
+  Helds = FALSE
   Notifs = FALSE
   Cancels = FALSE
   AwaitHandlers = TRUE
